@@ -1,4 +1,6 @@
 import GB.C16.Proofs
+import GB.C16.RaceProofs
+import GB.Generated.Facts
 import GB.Stack.Lifecycle   -- STACK block at the end of this file (area `stack`)
 /-
   C16 — targets can be added, removed and re-added cleanly.  Property theorems only.
@@ -685,3 +687,90 @@ theorem C16_conn_stream_racing_close_ends (s : RState) (dl : Bool) :
     connection state just before Close closed the connection waits for ever (with a deadline: half of it). -/
 theorem C16_conn_original_wait_on_closed_conn_never_returns :
     waitOnClosed false false = .never ∧ waitOnClosed false true = .atHalfDeadline := ⟨rfl, rfl⟩
+
+/-! ## Add ‖ Remove on the same name: lock scope and teardown order (GB/C16/Race.lean) -/
+open GB.C16.Race
+
+/-- Facts tie (regenerated from reflection.go by go/ast on every run): `Remove` holds `r.mu` by a DEFERRED unlock and
+    tears down in the order watchers → resolver → pool connection → delete; `Add` goes pool.New → Watch → Watch →
+    Build → insert under the same deferred lock and none of its error branches makes a cleanup call;
+    `aggregateWatcher` closes pattern then service. A change of scope or order breaks these by `decide` even when
+    no race is hit. -/
+theorem C16_facts_remove_scope_and_order : GB.Generated.c16RemoveTrace = expectedRemoveTrace := by decide
+theorem C16_facts_add_order_and_cleanup : GB.Generated.c16AddTrace = expectedAddTrace := by decide
+theorem C16_facts_watcher_order : GB.Generated.c16WatcherOrder = expectedWatcherOrder := by decide
+
+/-- Add(name) ‖ Remove(name), any number of goroutines, every interleaving of the atomic steps under the REAL lock
+    scope and teardown order: an Add only ever answers ok or "already added" (never ErrAlreadyDialed, never a Watch
+    failure); at most one goroutine is past `Lock`; and whenever the lock is free nothing is half-built or left
+    behind (pool slot, both watch slots and the census of connections / watchers / pollers all agree with the map)
+    and the completed operations, in unlock order, are a sequential history of the `present`-set specification
+    that ends in the current map — every interleaving ends in a sequential outcome. -/
+theorem C16_add_remove_same_name_atomic (s : AState) (h : GB.LTS.Reachable (astep .real) ainit s) :
+    (∀ i r, s.apc i = .done r → r = .ok ∨ r = .dup) ∧
+    (∀ i, insideA (s.apc i) = true → s.lock = some (.add i)) ∧
+    (∀ j, insideR (s.rpc j) = true → s.lock = some (.rem j)) ∧
+    (s.lock = none → Consistent s ∧ seqRun false s.log = some s.inMap) := by
+  have hi := ainv_reachable s h
+  refine ⟨hi.resA, fun i => (hi.holderA i).2, fun j => (hi.holderR j).2, ?_⟩
+  intro hl
+  obtain ⟨p, hT, hC⟩ := hi.free hl
+  simp [T, consT] at hT
+  obtain ⟨h1, h2, h3, h4, h5, h6, h7, h8⟩ := hT
+  refine ⟨?_, by rw [h1]; exact hC⟩
+  simp [Consistent, h1, h2, h3, h4, h5, h6, h7, h8]
+
+/-- Why Add's Watch (and pool.New) cannot fail on the real code: an Add that found the name absent from the map
+    finds the pool slot and both watch slots free — in EVERY reachable state, including all intermediate states of
+    concurrent Removes, because under the real lock scope no Remove is between its steps while an Add is (and vice
+    versa): the half-torn-down states of Remove are never visible to Add's checks. Hence the error branches after
+    `pool.New` (which close nothing: facts) are dead code, concurrently as well as sequentially. -/
+theorem C16_add_watch_cannot_fail (s : AState) (h : GB.LTS.Reachable (astep .real) ainit s) (i : Nat) :
+    (s.apc i = .poolNew → s.inMap = false ∧ s.poolSlot = false ∧ s.pSlot = false ∧ s.sSlot = false) ∧
+    (s.apc i = .watchP → s.pSlot = false ∧ s.sSlot = false) ∧
+    (s.apc i = .watchS → s.sSlot = false) ∧
+    (∀ r, s.apc i = .unlock r → r = .ok ∨ r = .dup) ∧
+    (insideA (s.apc i) = true → ∀ j, insideR (s.rpc j) = false) := by
+  have hi := ainv_reachable s h
+  have holder : insideA (s.apc i) = true → s.lock = some (.add i) := (hi.holderA i).2
+  refine ⟨?_, ?_, ?_, ?_, ?_⟩
+  · intro hp
+    have sh := hi.shA i (holder (by simp [hp, insideA])); rw [hp] at sh
+    have hT := sh.1; simp [T, consT] at hT
+    exact ⟨hT.1, hT.2.1, hT.2.2.1, hT.2.2.2.1⟩
+  · intro hp
+    have sh := hi.shA i (holder (by simp [hp, insideA])); rw [hp] at sh
+    have hT := sh.1; simp [T] at hT
+    exact ⟨hT.2.2.1, hT.2.2.2.1⟩
+  · intro hp
+    have sh := hi.shA i (holder (by simp [hp, insideA])); rw [hp] at sh
+    have hT := sh.1; simp [T] at hT
+    exact hT.2.2.2.1
+  · intro r hp
+    have sh := hi.shA i (holder (by simp [hp, insideA])); rw [hp] at sh
+    cases r with
+    | ok => exact Or.inl rfl
+    | dup => exact Or.inr rfl
+    | dialed => exact absurd sh (by simp [shapeA])
+    | watchP => exact absurd sh (by simp [shapeA])
+    | watchS => exact absurd sh (by simp [shapeA])
+  · intro hin j
+    have hl := holder hin
+    cases e : insideR (s.rpc j) with
+    | false => rfl
+    | true => have := (hi.holderR j).2 e; rw [hl] at this; cases this
+
+/-- Negative witness for the seeded variant C16-m6 (lock held only for lookup + delete; teardown connection →
+    resolver → watchers): the schedule `m6Schedule` is executable and ends with the lock free, the name NOT in the
+    map, yet its pool slot taken and one connection open that nobody owns; the concurrent Add answered with the Watch
+    failure, the later Add answers ErrAlreadyDialed (the name is not present and not addable), Remove returned true. -/
+theorem C16_m6_early_unlock_leaks :
+    (GB.LTS.run (astep .earlyUnlock) ainit m6Schedule).map summary =
+      some { lockFree := true, inMap := false, poolSlot := true, conns := 1,
+             add1 := .done .watchP, add2 := .done .dialed, rem0 := .done true } := by
+  decide
+
+/-- … and the very same schedule is NOT executable on the real code: the concurrent Add cannot take the lock. -/
+theorem C16_m6_schedule_impossible_on_real_code :
+    GB.LTS.run (astep .real) ainit (m6Schedule.take 13) = none := by
+  decide
